@@ -23,6 +23,9 @@ def sym_to_glue(y):
     return ('eopm',)
 
 PRE = [('lit', BYTEMAP[1]), ('lit', BYTEMAP[2]), ('match', 1, 2)]
+# more output than the smallest dictionary (4 KiB) holds: the circular buffer of the decoder has wrapped
+BIGPRE = [('lit', 0x33), ('lit', 0x77), ('lit', 0x33)] + [('match', 1, 273)] * 17
+BIGPRE_OUT = (bytes([0x33, 0x77]) * 2400)[:3 + 17 * 273]
 
 def lz_plan_to_lzma2(p):
     """GenLz plan (known size) -> (raw LZMA2 stream bytes, expected output prefix, n claimed)."""
@@ -30,6 +33,9 @@ def lz_plan_to_lzma2(p):
     claimed = sum(y['n'] for y in p['syms'])        # the chunk header claims every symbol's bytes
     plan = []
     if p['ctx'] == 'fresh':
+        plan.append(dict(kind='lzma', reset='all', symbols=syms, usize=max(claimed, 1)))
+    elif p['ctx'] == 'afterwrap':
+        plan.append(dict(kind='lzma', reset='all', symbols=BIGPRE))
         plan.append(dict(kind='lzma', reset='all', symbols=syms, usize=max(claimed, 1)))
     else:
         plan.append(dict(kind='lzma', reset='all', symbols=PRE))
@@ -48,7 +54,7 @@ def lz_plan_to_lzma1(p, eopm=True):
 RESETMAP = {'none': 'none', 'state': 'state', 'props': 'state+props', 'all': 'all'}
 GOOD_PROPS = [(lc, lp, pb) for lc in range(9) for lp in range(5) for pb in range(5) if lc + lp <= 4]
 
-def concretise_chunks(abs_chunks, rng, nsym=6, small=True):
+def concretise_chunks(abs_chunks, rng, nsym=6, small=True, big=False):
     """abstract chunk list -> dict(data=bytes, sizes=[(c, n)], outs=[bytes per chunk], plan)
     The encoder state follows exactly the resets the chunks carry; payload verdicts: 'err' = a match from
     before the dictionary, 'short' = one byte more than the LZMA data needs, 'long' = one byte fewer."""
@@ -64,6 +70,10 @@ def concretise_chunks(abs_chunks, rng, nsym=6, small=True):
             plan.append(dict(kind='raw', bytes=bytes([rng.choice([0x03, 0x04, 0x10, 0x40, 0x7F])]))); meta.append(('bad', None)); continue
         if k == 'unc':
             n = rng.randrange(1, 9 if small else 300)
+            if big or ch.get('big'):
+                n = 4200 + rng.randrange(0, 40)         # more than the 4 KiB dictionary holds
+            elif ch.get('size'):
+                n = ch['size']
             data = bytes(rng.randrange(256) for _ in range(n))
             if ch['reset'] == 'dict':
                 avail = 0
@@ -78,6 +88,11 @@ def concretise_chunks(abs_chunks, rng, nsym=6, small=True):
                                             max_out=40 if small else 2000)
         if not syms:
             syms, n, reps2 = [('lit', 0x55)], 1, reps
+        if big or ch.get('big'):
+            # fill the dictionary (and wrap the decoder's buffer): a literal and long copies of it
+            syms = syms + [('lit', rng.randrange(256))] + [('match', 0, 273)] * 16
+            n += 1 + 16 * 273
+            reps2 = [0, 0, 0, 0]
         it = dict(kind='lzma', reset=RESETMAP[reset])
         if reset in ('props', 'all'):
             lc, lp, pb = rng.choice(GOOD_PROPS)
@@ -113,11 +128,16 @@ def concretise_chunks(abs_chunks, rng, nsym=6, small=True):
                     c = dict(c, payload=c['payload'][:-1] + bytes([c['payload'][-1] ^ 1]))
                 else:
                     done = False
+                    other = None
                     for delta in list(range(1, 256)):
                         cand = dict(c, payload=c['payload'][:-1] + bytes([(c['payload'][-1] + delta) & 0xFF]))
                         r = gl2.decode(base + gl2.write_chunk(cand) + b"\x00", 4096, collect=None)
                         if r.status == 'error:chunk:rc_end':
                             c = cand; done = True; break
+                        if other is None and r.status.startswith('error:chunk:'):
+                            other = cand
+                    if not done and other is not None:
+                        c = other; done = True        # the last byte still steers a symbol: the payload is invalid all the same
                     if not done:
                         raise RuntimeError("could not build a chunk with a dirty range coder end")
                 chunks[len(parts)] = c
@@ -135,8 +155,8 @@ def concretise_chunks(abs_chunks, rng, nsym=6, small=True):
     return dict(data=b"".join(parts), sizes=sizes, outs=outs, parts=parts)
 
 # ------------------------------------------------------------------------------------------ catalogue for XzSpace
-def C_(k, reset='none', props='ok', pl='ok'):
-    return dict(k=k, reset=reset, props=props, pl=pl)
+def C_(k, reset='none', props='ok', pl='ok', **kw):
+    return dict(k=k, reset=reset, props=props, pl=pl, **kw)
 
 CATALOGUE_SHAPES = [
     # valid data
@@ -147,6 +167,9 @@ CATALOGUE_SHAPES = [
     [C_('unc', 'dict'), C_('lzma', 'props'), C_('unc', 'none'), C_('end')],       # props after an uncompressed reset; unc after lzma
     [C_('lzma', 'all'), C_('unc', 'none'), C_('lzma', 'none'), C_('end')],         # lzma continues after an uncompressed chunk
     [C_('lzma', 'all'), C_('lzma', 'props'), C_('lzma', 'all'), C_('end')],        # property change, second dictionary reset
+    [C_('lzma', 'all', big=True), C_('lzma', 'all'), C_('end')],                  # dictionary reset after the window has wrapped
+    [C_('unc', 'dict', big=True), C_('unc', 'dict'), C_('lzma', 'props'), C_('end')],
+    [C_('unc', 'dict', size=48), C_('end')],                                      # plain bytes: content chosen per filter chain (BCJ tails)
     # invalid data (one LZMA2 rule each)
     [C_('lzma', 'props'), C_('end')],                                             # first chunk does not reset the dictionary
     [C_('unc', 'dict'), C_('lzma', 'state'), C_('end')],                          # no properties after a dictionary reset
@@ -198,6 +221,40 @@ def filter_props(f, k, rng_val):
         return bytes(plen)
     return bytes(plen)
 
+INSN = {  # a convertible branch/call instruction per BCJ architecture (plain, before the encoder's conversion) and its alignment
+    4: (bytes([0xE8, 0x10, 0x00, 0x00, 0x00]), 1),      # x86 CALL rel32
+    5: (bytes([0x48, 0x00, 0x01, 0x01]), 4),            # PowerPC bl
+    7: (bytes([0x10, 0x00, 0x00, 0xEB]), 4),            # ARM BL
+    8: (bytes([0x10, 0xF0, 0x20, 0xF8]), 2),            # ARM-Thumb BL
+    9: (bytes([0x40, 0x00, 0x01, 0x00]), 4),            # SPARC call
+    10: (bytes([0x10, 0x00, 0x00, 0x94]), 4),           # ARM64 BL
+}
+
+def bcj_tail_plain(n, fid, t, rng):
+    """n bytes of plain data with one convertible instruction of architecture `fid` ending t bytes before the end
+    (moved down to the architecture's alignment)."""
+    insn, align = INSN[fid]
+    buf = bytearray(rng.randrange(256) for _ in range(n))
+    p = n - t - len(insn)
+    p -= p % align
+    if p >= 0:
+        buf[p:p + len(insn)] = insn
+    return bytes(buf)
+
+def unc_only(entry):
+    return all(c['k'] in ('unc', 'end') for c in entry['chunks']) and any(c['k'] == 'unc' for c in entry['chunks'])
+
+def rebuild_unc(entry, content):
+    """the LZMA2 data of an all-uncompressed catalogue entry with other content of the same length"""
+    out = bytearray(); pos = 0
+    for c in entry['chunks']:
+        if c['k'] == 'end':
+            out.append(0)
+        else:
+            out += bytes([1 if c['reset'] == 'dict' else 2, ((c['n'] - 1) >> 8) & 0xFF, (c['n'] - 1) & 0xFF]) + content[pos:pos + c['n']]
+            pos += c['n']
+    return bytes(out)
+
 def encode_filters(filters, data):
     """Apply the non-last filters in the ENCODING direction with glue (last filter is LZMA2 -> caller)."""
     for fid, props in filters[:-1]:
@@ -228,7 +285,21 @@ def concretise_file(af, cat, rng=None, variant=0):
                         plain = gflt.apply_nonlast(f['id'], f['props'], plain, False)
             except Exception:
                 plain = raw
-            blk = dict(filters=flt, data=e['data'], uncompressed=plain)
+            data_bytes = e['data']
+            bcjs = [f['id'] for f in flt[:-1] if f['id'] in INSN and len(f['props']) in (0, 4)]
+            if unc_only(e) and bcjs and all(gflt.implemented(f['id']) or f['id'] == 3 for f in flt[:-1]) and all(
+                    (f['id'] == 3 and len(f['props']) == 1) or (f['id'] != 3 and len(f['props']) in (0, 4)) for f in flt[:-1]):
+                # plain bytes: the meaning of the Block is CHOSEN (a convertible instruction near the end of the data),
+                # the stored bytes are its encoding through the chain
+                want = bcj_tail_plain(len(raw), bcjs[(variant + bi) % len(bcjs)], ((variant + bi) // max(1, len(bcjs))) % 9, rng)
+                enc = want
+                for f in flt[:-1]:
+                    enc = gflt.apply_nonlast(f['id'], f['props'], enc, True)
+                plain = enc
+                for f in reversed(flt[:-1]):
+                    plain = gflt.apply_nonlast(f['id'], f['props'], plain, False)
+                data_bytes = rebuild_unc(e, enc)
+            blk = dict(filters=flt, data=data_bytes, uncompressed=plain)
             if b['cs']['p']:
                 if b['cs']['vli']:
                     blk['compressed_size'] = b['cs']['v']
@@ -252,7 +323,7 @@ def concretise_file(af, cat, rng=None, variant=0):
             if not b['hcrc']:
                 h2 = gxz.build_block_header(blk)
                 blk['header_crc32'] = struct.unpack("<I", h2[-4:])[0] ^ (1 << rng.randrange(32))
-            padn = (-len(e['data'])) % 4
+            padn = (-len(data_bytes)) % 4
             blk['padding'] = bytes(padn) if (b['bpadz'] or padn == 0) else (bytes(padn - 1) + b"\x80")
             good = gcrc.check_bytes(check, plain)
             if not b['chk'] and good:
@@ -313,7 +384,7 @@ def ensure_loaded(so):
         lz.load(so)
     return lz.L()
 
-def decode_stream(data, flags=lz.CONCATENATED, memlimit=lz.UINT64_MAX, slices=None, mt=0, out_cap=None):
+def decode_stream(data, flags=lz.CONCATENATED, memlimit=lz.UINT64_MAX, slices=None, mt=0, out_cap=None, out_slice=None):
     """lzma_stream_decoder (or _mt with `mt` threads) through lzma_code: returns (retname, out, tells, total_in)."""
     c = lz.Coder()
     if mt:
@@ -324,13 +395,13 @@ def decode_stream(data, flags=lz.CONCATENATED, memlimit=lz.UINT64_MAX, slices=No
     if r != lz.OK:
         c.end()
         return "INIT_" + lz.retname(r), b"", [], 0
-    res = drive(c, data, slices, out_cap)
+    res = drive(c, data, slices, out_cap, out_slice)
     c.end()
     return res
 
-def drive(c, data, slices=None, out_cap=None):
+def drive(c, data, slices=None, out_cap=None, out_slice=None):
     """Feed `data` (one shot, or in the given slice sizes) with LZMA_FINISH on the last piece; collects the
-    LZMA_NO_CHECK / UNSUPPORTED_CHECK / GET_CHECK returns and continues."""
+    LZMA_NO_CHECK / UNSUPPORTED_CHECK / GET_CHECK returns and continues.  out_slice: output space granted per call."""
     s = c.strm
     n = len(data)
     ib = lz.Buf(n, data)
@@ -341,7 +412,7 @@ def drive(c, data, slices=None, out_cap=None):
     it = iter(slices) if slices is not None else iter(())
     idle = 0
     final = None
-    for _ in range(100000):
+    for _ in range(400000):
         pend = s.avail_in if _ else 0
         try:
             k = next(it)
@@ -349,7 +420,7 @@ def drive(c, data, slices=None, out_cap=None):
             k = n - ip - pend
         k = max(0, min(k, n - ip - pend))
         s.next_in = ib.addr + ip; s.avail_in = pend + k
-        s.next_out = ob.addr + op; s.avail_out = cap - op
+        s.next_out = ob.addr + op; s.avail_out = (cap - op) if out_slice is None else min(out_slice, cap - op)
         last = (ip + s.avail_in == n)
         b_in, b_out = s.avail_in, s.avail_out
         r = c.code_raw(lz.FINISH if last else lz.RUN)
@@ -378,7 +449,7 @@ def buffer_decode(data, flags=lz.CONCATENATED, out_cap=1 << 16):
     r = L.lzma_stream_buffer_decode(C.byref(ml), flags, None, ib.addr, C.byref(ip), len(data), ob.addr, C.byref(op), out_cap)
     return lz.retname(r), ob.data(op.value), ip.value
 
-def raw_decode(filters, data, slices=None, out_cap=1 << 16):
+def raw_decode(filters, data, slices=None, out_cap=1 << 16, out_slice=None):
     """lzma_raw_decoder with `filters` = [(id, options struct or None)]; returns (retname, out, tells, total_in)."""
     c = lz.Coder()
     arr = lz.make_filters(filters)
@@ -386,15 +457,19 @@ def raw_decode(filters, data, slices=None, out_cap=1 << 16):
     if r != lz.OK:
         c.end()
         return "INIT_" + lz.retname(r), b"", [], 0
-    res = drive(c, data, slices, out_cap)
+    res = drive(c, data, slices, out_cap, out_slice)
     c.end()
     return res
 
-def block_decode(header, rest, check, slices=None, out_cap=1 << 16, ignore_check=False):
-    """lzma_block_header_decode + lzma_block_decoder on header bytes + (data, padding, check)."""
+def block_decode(header, rest, check, slices=None, out_cap=1 << 16, ignore_check=False, out_slice=None):
+    """lzma_block_header_decode + lzma_block_decoder on header bytes + (data, padding, check).
+    The lzma_block lives in NON-ZEROED memory (0xA5): only the members block.h tells the caller to set before
+    lzma_block_header_decode() are written (version, check, header_size, filters); everything else is the decoder's job."""
     L = lz.L()
     blk = lz.Block()
+    C.memset(C.byref(blk), 0xA5, C.sizeof(blk))
     flt = (lz.Filter * 5)()
+    C.memset(flt, 0xA5, C.sizeof(flt))
     blk.version = 1
     blk.check = check
     blk.header_size = (header[0] + 1) * 4
@@ -403,14 +478,15 @@ def block_decode(header, rest, check, slices=None, out_cap=1 << 16, ignore_check
     r = L.lzma_block_header_decode(C.byref(blk), None, hb.addr)
     if r != lz.OK:
         return "HDR_" + lz.retname(r), b"", [], 0
-    blk.ignore_check = 1 if ignore_check else 0
+    if ignore_check:
+        blk.ignore_check = 1          # the application's choice, made after the header was decoded
     c = lz.Coder()
     r = c.init("lzma_block_decoder", C.byref(blk))
     if r != lz.OK:
         c.end()
         L.lzma_filters_free(C.cast(flt, C.POINTER(lz.Filter)), None)
         return "INIT_" + lz.retname(r), b"", [], 0
-    res = drive(c, rest, slices, out_cap)
+    res = drive(c, rest, slices, out_cap, out_slice)
     c.end()
     L.lzma_filters_free(C.cast(flt, C.POINTER(lz.Filter)), None)
     return res
